@@ -94,6 +94,10 @@ func run(t *testing.T, sc sim.BScenario) engine.Verdict {
 			}
 			return nil
 		}
+		if method == "GET" && sc.GetHook {
+			labels = append(labels, "dontcare:get-goes-to-getter") // the Getter's rules are C19's
+			continue
+		}
 		if method != "POST" {
 			if r.Status != 405 {
 				return fail(st, "status", "status %d, want 405 for method %s", r.Status, method)
@@ -378,6 +382,7 @@ var invalidShapes = []string{
 func genScenario(t *rapid.T) sim.BScenario {
 	sc := sim.BScenario{Concurrency: rapid.SampledFrom([]int{0, 1, 2, 8}).Draw(t, "limit"), Salt: rapid.Uint64().Draw(t, "salt")}
 	sc.AllowPush = rapid.IntRange(0, 2).Draw(t, "push") == 0
+	sc.GetHook = rapid.IntRange(0, 2).Draw(t, "gethook") == 0
 	if rapid.IntRange(0, 9).Draw(t, "nohooks") == 0 {
 		sc.NoHooks = true
 	}
@@ -424,11 +429,14 @@ func genScenario(t *rapid.T) sim.BScenario {
 				}
 				ms = append(ms, shape)
 			case roll < 25:
-				m := rapid.SampledFrom([]string{"nope", "rpc.x", "rpc.serverInfo", "Ret"}).Draw(t, "um")
+				// (names nobody serves, some with characters that JSON writes as escapes:
+				// the bridge passes them on to its server and brings back -32601)
+				m := rapid.SampledFrom([]string{"nope", "rpc.x", "rpc.serverInfo", "Ret", "a\ab", "\x7f", "\x00x", "\U000E0001", "é\n\v"}).Draw(t, "um")
+				mb, _ := json.Marshal(m)
 				if rapid.IntRange(0, 3).Draw(t, "unote") == 0 {
-					ms = append(ms, fmt.Sprintf(`{"jsonrpc":"2.0","method":%q}`, m))
+					ms = append(ms, fmt.Sprintf(`{"jsonrpc":"2.0","method":%s}`, mb))
 				} else {
-					ms = append(ms, fmt.Sprintf(`{"jsonrpc":"2.0","id":%s,"method":%q}`, rapid.SampledFrom(ids).Draw(t, "uid"), m))
+					ms = append(ms, fmt.Sprintf(`{"jsonrpc":"2.0","id":%s,"method":%s}`, rapid.SampledFrom(ids).Draw(t, "uid"), mb))
 				}
 			default:
 				k++
